@@ -34,6 +34,8 @@ ASSUMPTIONS = ["SimTransport mirrors asyncio's selector transport (write after l
 REQUIRED_OBS = ["recovered", "resets_seen", "fault_atoms_effective", "probe_cmd_written",
                 "probe_status_delivered", "api_level_recoveries"]
 SOAK = True   # also judged by the whole-run monitors of the soak sessions (vf/soak.py)
+# (the instants this check judges are measured against non-eager task start-up: DESIGN 12)
+EAGER_OK = False
 BUDGET = {"quick": 100, "thorough": 1500}
 
 EPS = 1e-6
